@@ -589,6 +589,19 @@ def bounded(tier, seed):
             g = griddesc(gd, GDNAM='TESTGRID', nsteps=4, var_kwds=dict(V0=dict(units='ppm'), V1=dict(units='ppm')), VGLVLS=np.array([1., .8, .4, 0.], 'f'))
             return g
         sources.append(('from GRIDDESC text', from_griddesc))
+
+        def from_griddesc_subhourly():
+            # a dated, sub-hourly file from GRIDDESC text: it carries time flags AND a synthesised CF time variable
+            from PseudoNetCDF.cmaqfiles import griddesc
+            gd = os.path.join(tmp, 'GRIDDESC2')
+            open(gd, 'w').write("' '\n'LCC'\n  2 33.000 45.000 -97.000 -97.000 40.000\n' '\n'TESTGRID'\n'LCC' -1000.0 500.0 12000.0 4000.0 6 5 1\n' '\n")
+            g = griddesc(gd, GDNAM='TESTGRID', SDATE=2020001, STIME=3000, TSTEP=1500, nsteps=5, var_kwds=dict(V0=dict(units='ppm'), V1=dict(units='ppm')),
+                         VGLVLS=np.array([1., .8, .4, 0.], 'f'))
+            # the CF variables are coordinates: declared as such, mask() leaves them alone (undeclared, a masked time variable makes
+            # the next time decoding raise -- an exception, not an incoherent file)
+            g.setCoords([k for k in ('time', 'time_bounds', 'layer', 'level', 'x', 'y', 'latitude', 'longitude') if k in g.variables])
+            return g
+        sources.append(('from GRIDDESC text, sub-hourly steps', from_griddesc_subhourly))
         for sname, mk in sources:
             res = {}
             if not run.case('C10:source:' + sname, sname, lambda: (res.__setitem__('f', mk()), IO.ioapi_wf(res['f']))[1]):
@@ -615,7 +628,7 @@ def bounded(tier, seed):
     return run.result(
         rule='ioapi_wf (NVARS = |VAR-LIST| = VAR = TFLAG axis; listed variables exist with standard dimensions; NROWS/NCOLS/NLAYS = dimension lengths; |VGLVLS| = NLAYS+1; '
              'SDATE/STIME = TFLAG[0,0]; TSTEP unlimited) as run-time post-condition after every operation sequence',
-        bound='IOAPI files gridded/boundary/daily/from disk/from GRIDDESC (4 steps, 3 layers, 5x6); all sequences of length <= %d over ~22 operations' % depth)
+        bound='IOAPI files gridded/boundary/daily/from disk/from GRIDDESC (time independent, and dated with 15-minute steps) (4-5 steps, 3 layers, 5x6); all sequences of length <= %d over ~22 operations' % depth)
 
 
 def bounded_replay(p):
